@@ -206,7 +206,7 @@ def meta_scenario(rng, work, idx):
     d = os.path.join(work, "mw%d" % idx); os.makedirs(d)
     dead = rng.randint(1, n - 1) if rng.rand() < 0.4 else -1        # a walker that stops early; its hills file is then cut
     dead_at = rng.randint(4, S - 4)
-    cut = rng.randint(1, 90)
+    cut = rng.randint(2, 60)              # (more than the final newline, less than one hill record: exactly the last record of the file is damaged)
     # or: a walker killed between publishing its new state file and restarting its hills file
     crash = False
     if R > 0 and rng.rand() < 0.6:
@@ -231,8 +231,13 @@ def meta_scenario(rng, work, idx):
             L.append("x.touch tok%d" % tok[0]); prev_tok[0] = "tok%d" % tok[0]
         tok[0] += 1
     xs = [[rng.uniform(-2.0, 2.0) for _ in range(S + 1)] for _ in range(n)]
+    # the same history for the protocol model (CvModel/Walkers.lean), as one global sequence of events
+    G = ["K.new %d %d %d %d" % (n, f, u, R)]
+    mirrors = []               # (walker, line in its op file, line in the model file)
     for w in range(n):
-        ev(w, ["m.new 1", "M.noclock", cfg(cvc), cfg(bias(w)), "m.opt restartfreq %d" % R, "m.opt prefix w%d" % w, pos(0, 0.0, 0.0, xs[w][0]), "m.step", "m.bias b"])
+        ev(w, ["m.new 1", "M.noclock", cfg(cvc), cfg(bias(w)), "m.opt restartfreq %d" % R, "m.opt prefix w%d" % w, pos(0, 0.0, 0.0, xs[w][0]), "m.step", "m.bias b", "mt.mirror b"])
+        G += ["K.setup %d" % w, "K.step %d 0" % w, "K.mirror %d" % w]
+        mirrors.append((w, 0, len(files[w]) - 1, len(G)))
     last = [S if w != dead else dead_at for w in range(n)]
     order = [w for w in range(n) for _ in range(last[w])]
     rng.shuffle(order)
@@ -245,16 +250,28 @@ def meta_scenario(rng, work, idx):
         if dead >= 0 and not crash and not did_cut and cursor[dead] > last[dead] and w != dead:
             pre = ["x.truncate w%d.colvars.b.w%d.hills -%d" % (dead, dead, cut)]; did_cut = True
         fatal = crash and w == dead and s_ == dead_at
-        ev(w, pre + [pos(0, 0.0, 0.0, xs[w][s_]), "m.step", "m.bias b"], fatal=fatal)
+        final = (s_ == last[w]) and not fatal
+        if pre:
+            G.append("K.truncate %d 1" % dead)
+        # a walker that has done its last step closes its files there and then (not whenever its process happens to end)
+        ev(w, pre + [pos(0, 0.0, 0.0, xs[w][s_]), "m.step", "m.bias b"] + ([] if fatal else ["mt.mirror b"]) + (["m.drop"] if final else []), fatal=fatal)
+        G.append("K.step %d %d%s" % (w, s_, " kill" if fatal else ""))
         if not fatal:
-            events.append((w, s_, len(files[w]) - 1))
+            G.append("K.mirror %d" % w)
+            mirrors.append((w, s_, len(files[w]) - (2 if final else 1), len(G)))
+            events.append((w, s_, len(files[w]) - (3 if final else 2)))
         else:
             events.append((w, s_, None))
+        if final:
+            G.append("K.end %d" % w)
     paths = []
     for w in range(n):
         pth = os.path.join(d, "w%d.txt" % w)
         open(pth, "w").write("\n".join(files[w]) + "\n"); paths.append(pth)
-    return {"n": n, "u": u, "f": f, "R": R, "S": S, "dir": d, "files": paths, "events": events, "xs": xs, "dead": dead, "dead_at": dead_at, "cut": cut, "did_cut": did_cut, "crash": crash}
+    gfile = os.path.join(d, "model.txt")
+    open(gfile, "w").write("\n".join(G) + "\n")
+    return {"n": n, "u": u, "f": f, "R": R, "S": S, "dir": d, "files": paths, "events": events, "xs": xs, "dead": dead, "dead_at": dead_at, "cut": cut, "did_cut": did_cut, "crash": crash,
+            "gfile": gfile, "mirrors": mirrors}
 
 
 def run_walkers_cwd(exe, files, cwd, timeout=240, crash_walker=-1, crash_remove=0):
@@ -406,6 +423,35 @@ def check_meta(rep, sc, outs, idx, seed):
     return nprobe
 
 
+def check_meta_mirrors(rep, sc, outs, mout, idx, seed, replay_head=""):
+    """correspondence of the protocol model: after every step, the hills each walker holds of each peer"""
+    pm, _ = cvlib.parse_out(mout)
+    n = sc["n"]
+    replay = replay_head + "#! multiple-walker metadynamics, file protocol: run each walker file with the harness in one common directory, all at once; model history last\n"
+    for w in range(n):
+        replay += "#! ---- walker %d ops\n" % w + open(sc["files"][w]).read()
+    replay += "#! ---- model ops\n" + open(sc["gfile"]).read()
+    po = {}
+    for w, (rc, o) in enumerate(outs):
+        po[w] = cvlib.parse_out(o)[0] if o else {}
+    ncmp = 0
+    for (w, s_, lnw, lnm) in sc["mirrors"]:
+        if sc.get("crash") and w == sc["dead"] and s_ >= sc["dead_at"]:
+            continue
+        mod = {tag: [tok_val(t)[1] for t in v] for (l, tag, occ), v in pm.items() if l == lnm and tag.startswith("mir_")}
+        imp = {tag: [tok_val(t)[1] for t in v] for (l, tag, occ), v in po[w].items() if l == lnw and tag.startswith("mir_")}
+        ncmp += 1
+        if mod != imp:
+            rep.violation("multiple-walker metadynamics: model and implementation disagree on the hills walker %d holds of its peers after its step %d "
+                          "(scenario %d: %d walkers, hill frequency %d, update frequency %d, restart frequency %d%s): impl %r model %r"
+                          % (w, s_, idx, n, sc["f"], sc["u"], sc["R"], ", walker %d killed inside its state write at step %d" % (sc["dead"], sc["dead_at"]) if sc.get("crash") else
+                             (", walker %d stops at step %d and its hills file is cut" % (sc["dead"], sc["dead_at"]) if sc["dead"] >= 0 else ""), imp, mod),
+                          "#! correspondence CvModel.Walkers <-> colvarbias_meta::read_replica_files broken\n" + replay,
+                          "mw_corr_%d_seed%d" % (idx, seed), found_input=False)
+            return ncmp
+    return ncmp
+
+
 def extra(rep, tier, rng):
     exe = cvbuild.build_harness("rel")
     work = os.path.join(cvbuild.CACHE, "c14-%d" % os.getpid())
@@ -434,6 +480,11 @@ def extra(rep, tier, rng):
             stats["meta_scenarios"] += 1; stats["meta_dead_peer"] += int(sc["dead"] >= 0 and not sc["crash"])
             stats["meta_killed_between_files"] = stats.get("meta_killed_between_files", 0) + int(sc["crash"])
             stats["meta_probes"] += check_meta(rep, sc, outs, idx, rep.seed)
+            mrc, mout, merr = cvlib.run_model(sc["gfile"])
+            if mrc != 0:
+                rep.violation("model driver failed on a multiple-walker history: " + merr[-300:], "#! driver\n", "mw_driver", found_input=False)
+                break
+            stats["meta_mirrors_compared"] = stats.get("meta_mirrors_compared", 0) + check_meta_mirrors(rep, sc, outs, mout, idx, rep.seed)
             shutil.rmtree(sc["dir"], ignore_errors=True)
     finally:
         shutil.rmtree(work, ignore_errors=True)
